@@ -53,6 +53,8 @@ var FaultableOps = map[string]bool{"get": true, "use_db": true, "write_set": tru
 //	        (for op get: the pool returns an error)
 //	closed  the call fails and the connection is closed (IsClosed() == true), as the real
 //	        DirectConnection is after a broken pipe whose reconnect failed
+//	commit_reload  not a fault: the call answers ok, and the reload prepared with
+//	        World.PrepareReload is committed while the call is in flight
 //	hang    (execute only) the call blocks until Close() is called on the connection, then
 //	        fails - the max_sql_execute_time path
 type Fault struct {
